@@ -36,6 +36,9 @@ type Ctx struct {
 }
 
 type Obligation struct {
+	RawQuery string // complete SMT-LIB text (regular-expression lemmas), instead of context + goal
+	Re       *ReLemma
+	RePkg    string
 	Name   string
 	Kind   string
 	Label  string
@@ -78,7 +81,7 @@ func (c *Ctx) prelude() {
 	c.emit("(declare-const null Ref)")
 	c.emit("(declare-const nilI Iface)")
 	c.emit("(declare-fun strlen (Str) Int)")
-	c.emit("(assert (forall ((s Str)) (! (>= (strlen s) 0) :pattern ((strlen s)))))")
+	c.emit("(assert (forall ((s Str)) (! (and (>= (strlen s) 0) (<= (strlen s) 9223372036854775807)) :pattern ((strlen s)))))")
 	c.emit("(declare-const str_empty Str)")
 	c.emit("(assert (= (strlen str_empty) 0))")
 	c.emit("(assert (forall ((s Str)) (! (=> (= (strlen s) 0) (= s str_empty)) :pattern ((strlen s)))))")
@@ -94,6 +97,13 @@ func (c *Ctx) prelude() {
 	// string ops (axiomatised on demand by users of these symbols)
 	c.emit("(declare-fun strcat (Str Str) Str)")
 	c.emit("(assert (forall ((a Str) (b Str)) (! (= (strlen (strcat a b)) (+ (strlen a) (strlen b))) :pattern ((strcat a b)))))")
+	c.needStrSub()
+	// concatenation against indexing and slicing
+	c.emit("(assert (forall ((a Str) (b Str) (k Int)) (! (and (=> (and (<= 0 k) (< k (strlen a))) (= (strat (strcat a b) k) (strat a k))) (=> (and (<= (strlen a) k) (< k (+ (strlen a) (strlen b)))) (= (strat (strcat a b) k) (strat b (- k (strlen a)))))) :pattern ((strat (strcat a b) k)))))")
+	c.emit("(assert (forall ((a Str) (b Str) (i Int) (j Int)) (! (and (=> (and (<= 0 i) (<= i j) (<= j (strlen a))) (= (strsub (strcat a b) i j) (strsub a i j))) (=> (and (<= (strlen a) i) (<= i j) (<= j (+ (strlen a) (strlen b)))) (= (strsub (strcat a b) i j) (strsub b (- i (strlen a)) (- j (strlen a)))))) :pattern ((strsub (strcat a b) i j)))))")
+	c.emit("(assert (forall ((a Str) (b Str) (i Int) (j Int)) (! (=> (and (<= 0 i) (<= i (strlen a)) (<= (strlen a) j) (<= j (+ (strlen a) (strlen b)))) (= (strsub (strcat a b) i j) (strcat (strsub a i (strlen a)) (strsub b 0 (- j (strlen a)))))) :pattern ((strsub (strcat a b) i j)))))")
+	c.emit("(assert (forall ((a Str)) (! (and (= (strcat a str_empty) a) (= (strcat str_empty a) a)) :pattern ((strcat a str_empty)) :pattern ((strcat str_empty a)))))")
+	c.emit("(assert (forall ((s Str) (i Int)) (! (=> (and (<= 0 i) (<= i (strlen s))) (= (strsub s i i) str_empty)) :pattern ((strsub s i i)))))")
 	c.emit("(declare-fun strle (Str Str) Bool)")
 	c.emit("(assert (forall ((a Str)) (! (strle a a) :pattern ((strle a a)))))")
 	c.emit("(assert (forall ((a Str) (b Str)) (! (or (strle a b) (strle b a)) :pattern ((strle a b)))))")
@@ -364,6 +374,11 @@ func (c *Ctx) strLit(s string) Term {
 	for _, k := range keys {
 		if len(k) == len(s) {
 			c.emit(fmt.Sprintf("(assert (not (= %s %s)))", name, c.strLits[k]))
+		}
+	}
+	if len(s) <= 32 {
+		for i := 0; i < len(s); i++ {
+			c.emit(fmt.Sprintf("(assert (= (strat %s %d) %d))", name, i, s[i]))
 		}
 	}
 	c.strLits[s] = name
